@@ -136,6 +136,21 @@ def run_check(prop, tier, seed, jobs):
         max_steps = max(max_steps, r["max_steps"])
         skipped += r["skipped_deadline"]
         loopf |= set(r.get("loop_functions", []))
+    # thorough-tier supplement: the repository's own test-suite under the always-on monitors
+    repo_tests = None
+    if tier == "thorough" and getattr(mod, "WITH_REPO_TESTS", False):
+        repo_tests = run_repo_tests(tmp)
+        if repo_tests.get("error"):
+            dead.append(("repo-tests", repo_tests["error"]))
+        else:
+            counters["repo_tests_run_under_monitors"] = repo_tests["tests"]
+            counters["repo_tests_monitored_events"] = sum(repo_tests["events"].values())
+            missing |= set(repo_tests["missing"])
+            for v in repo_tests["violations"]:
+                key = f"m1:{v['kind']}:{v['op']}:repo-tests"
+                vcounts[key] += 1
+                violations.append({"key": key, "msg": f"state monitor fired inside the repository's own test {v.get('test')}: {v['kind']} in {v['op']}",
+                                   "detail": v.get("detail", {}), "case": {"repo_test": v.get("test")}})
     budget = reports[0]["step_budget"] if reports else None
     # ---- classify violations
     known = known_open(prop)
@@ -191,6 +206,11 @@ def run_check(prop, tier, seed, jobs):
         "exhaustive": False,
     }
     coverage.update(getattr(mod, "EXTRA_COVERAGE", {}))
+    enum = getattr(mod, "ENUMERATED", {}).get(tier)
+    if enum:
+        size, what = enum(ncases) if callable(enum) else enum
+        coverage["enumerated_subspace"] = {"what": what, "size": size,
+                                           "completed": bool(size <= ncases and skipped == 0 and not dead and not internal)}
     assumptions = list(getattr(mod, "ASSUMPTIONS", [])) + [
         "trusted base: vmon/ref.py (self-tested), CPython fractions, the monitor wrappers",
         "inputs outside the generated classes / bounds of DESIGN.md section 4 are not explored",
@@ -228,6 +248,22 @@ def run_check(prop, tier, seed, jobs):
         if counters.get(name, 0) < minimum:
             return inconclusive(prop, f"deciding counter {name}={counters.get(name, 0)} below floor {minimum}")
     return 0
+
+
+def run_repo_tests(tmp):
+    """pytest of the tree under test with vmon.pytest_plugin (M1, M3, M4 attached)"""
+    rep = os.path.join(tmp, "repo-tests.json")
+    env = worker_env()
+    env["VMON_REPORT"] = rep
+    try:
+        p = subprocess.run([PY, "-B", "-m", "pytest", "-q", "-p", "no:cacheprovider", "-p", "vmon.pytest_plugin", "--timeout=900"],
+                           cwd=repo_path(), env=env, capture_output=True, text=True, timeout=3600)
+    except subprocess.TimeoutExpired:
+        return {"error": "repository tests under monitors timed out"}
+    if not os.path.exists(rep):
+        return {"error": "repository tests under monitors produced no report: " + (p.stdout + p.stderr)[-600:]}
+    with open(rep) as fh:
+        return json.load(fh)
 
 
 def replay(path):
